@@ -166,12 +166,50 @@ def g_iop(v):
 SELOPS = {"In": "SIn", "NotIn": "SNotIn", "Exists": "SExists", "DoesNotExist": "SDoesNotExist"}
 
 
+_NAME_PART = re.compile(r"^([A-Za-z0-9][-A-Za-z0-9_.]*)?[A-Za-z0-9]$")
+_DNS_SUB = re.compile(r"^[a-z0-9]([-a-z0-9]*[a-z0-9])?(\.[a-z0-9]([-a-z0-9]*[a-z0-9])?)*$")
+
+
+def label_value_ok(v):
+    """validation.IsValidLabelValue"""
+    return v == "" or (len(v) <= 63 and bool(_NAME_PART.match(v)))
+
+
+def label_key_ok(k):
+    """validation.IsQualifiedName"""
+    parts = k.split("/")
+    if len(parts) == 1:
+        name = parts[0]
+    elif len(parts) == 2:
+        prefix, name = parts
+        if not prefix or len(prefix) > 253 or not _DNS_SUB.match(prefix):
+            return False
+    else:
+        return False
+    return 0 < len(name) <= 63 and bool(_NAME_PART.match(name))
+
+
 def g_selector(sel):
+    """labels.NewRequirement refuses a key or a value that is not a legal label key / value, under every operator and for
+    matchLabels entries alike: such a requirement is projected as one that does not build (a known operator with the wrong
+    number of values), which is all the model's selector conversion distinguishes"""
     if sel is None:
         return "None"
-    exprs = [gC("MkSelReq", nm(e.get("key", "")), SELOPS.get(e.get("operator"), "SBadOp"),
-                gL([nm(v) for v in e.get("values") or []])) for e in sel.get("matchExpressions") or []]
-    return "(Some %s)" % gC("MkSelector", g_labels(sel.get("matchLabels")), gL(exprs))
+    exprs = []
+    ml = {}
+    for k, v in sorted((sel.get("matchLabels") or {}).items()):
+        if label_key_ok(k) and label_value_ok(v):
+            ml[k] = v
+        else:
+            exprs.append(gC("MkSelReq", nm(k), "SIn", gL([])))
+    for e in sel.get("matchExpressions") or []:
+        op = SELOPS.get(e.get("operator"), "SBadOp")
+        key, vals = e.get("key", ""), e.get("values") or []
+        if op != "SBadOp" and not (label_key_ok(key) and all(label_value_ok(v) for v in vals)):
+            exprs.append(gC("MkSelReq", nm(key), "SIn", gL([])))
+        else:
+            exprs.append(gC("MkSelReq", nm(key), op, gL([nm(v) for v in vals])))
+    return "(Some %s)" % gC("MkSelector", g_labels(ml), gL(exprs))
 
 
 def g_selector_plain(sel):
